@@ -742,9 +742,13 @@ class SqlalchemyRender:
 
             return sql, params
 
-        except (SQLAlchemyError, NotImplementedError) as e:
+        except Exception as e:
             if not with_failback:
-                raise e
+                if isinstance(e, (SQLAlchemyError, NotImplementedError)):
+                    raise e
+                # a shape the translation does not support surfaced as an internal error (KeyError for an unknown
+                # type, TypeError for a wrong number of arguments ...): report it as unsupported
+                raise NotImplementedError(f'Unable to render: {type(e).__name__}: {e}') from e
 
             sql_query = str(ast_query)
             if self.dialect.name == 'postgresql':
